@@ -271,6 +271,14 @@ def _total_reduction(ctx, prog, ic, w4):
             ctx.require(holds >= 0.8 * (holds + und), 'precision of the reduction-helper analysis: %d of %d cells decided' % (holds, holds + und))
             ctx.ok('R05.5', 'reduction/helper', hb.where(0), '%d cells over +-16*pi stay within [-pi, pi]' % holds)
         return
+    if isinstance(A, tuple) and A[0] == 'call' and A[1] in prog.bodies:
+        rh = util.reduction_helper(prog, A[1])
+        if rh is not None:
+            ctx.fn(prog.bodies[A[1]])
+            ctx.check(rh, 'R05.5', 'reduction/helper-fn', prog.bodies[A[1]].where(0), A[1],
+                      'the helper that reduces the sum difference does not confine it to [-pi, pi] by whole turns on every path (a residual turn moves J4 and J6 by pi each)',
+                      detail='result dominated by the exits x <= PI and x >= -PI; updates by +-2*PI only')
+            return
     # closed form: (d + PI).rem_euclid(2 PI) - PI
     okf = False
     if isinstance(A, tuple) and A[0] == 'bin' and A[1] == 'Sub' and _num(A[3]) is not None and abs(_num(A[3]) - math.pi) < 1e-9:
